@@ -23,7 +23,6 @@ import (
 	"github.com/dolthub/go-mysql-server/sql"
 	"github.com/dolthub/go-mysql-server/sql/hash"
 	"github.com/dolthub/go-mysql-server/sql/types"
-	"github.com/dolthub/go-mysql-server/vh/internal/kf"
 	"github.com/dolthub/go-mysql-server/vh/internal/stats"
 	"github.com/dolthub/vitess/go/sqltypes"
 	"pgregory.net/rapid"
@@ -105,12 +104,23 @@ func sgn(x int) int {
 
 type failFn func(format string, args ...any)
 
-// kfLatin7tT: latin7_general_ci gives 't' and 'T' different weights (182 / 183); every
-// other ASCII letter pair is tied.
-const kfLatin7tT = "C29-latin7-ci-tT"
-
-func caseException(k coll, lower rune) bool {
-	return k.c.Name == "latin7_general_ci" && lower == 't'
+// caseExempt reports whether the ASCII letter r (either case) is outside the statement's
+// case clause for collation k, because MySQL itself treats the two cases as different letters:
+//   - Turkish collations: dotted/dotless i;
+//   - latin7_general_ci: MySQL's own sort table (strings/ctype-extra, latin7.xml) has distinct
+//     weights for 't' and 'T' and ties every other ASCII pair; the engine's table
+//     (sql/encodings/latin7_general_ci.go, 116 -> 182, 84 -> 183) is extracted from a MySQL
+//     server by collation-extractor and reproduces that. A first version of this check
+//     proposed it as finding C29-latin7-ci-tT; dropped as a false alarm (the engine behaves
+//     like MySQL). The exemption is counted (class "case-exempt:<collation>").
+func caseExempt(k coll, r rune) bool {
+	switch r | 0x20 {
+	case 'i':
+		return k.turkish
+	case 't':
+		return k.c.Name == "latin7_general_ci"
+	}
+	return false
 }
 
 // coherent checks the pair clauses of the statement on (a, b): antisymmetry, equality
@@ -250,17 +260,15 @@ func TestC29Exhaustive(t *testing.T) {
 		// _ci: ASCII letters differ only in case
 		if k.ci {
 			for ch := 'a'; ch <= 'z'; ch++ {
-				if k.turkish && ch == 'i' {
-					continue // dotted/dotless i are different letters there
+				if caseExempt(k, ch) {
+					st.Class("case-exempt:" + k.c.Name)
+					continue
 				}
 				lo, up := string(ch), string(ch-32)
 				if !k.representable(ch) || !k.representable(ch-32) {
 					continue
 				}
 				if c := coherent(ctx, k, lo, up, fail); c != 0 {
-					if caseException(k, ch) && kf.Suppress(st, kfLatin7tT) {
-						continue
-					}
 					fail("%s: Compare(%q, %q) = %d; a case-insensitive collation must equate them", k.c.Name, lo, up, c)
 				}
 				caseTies++
@@ -338,11 +346,13 @@ func alphabet(k coll) []rune {
 	return out
 }
 
-func flipASCIICase(s string, turkish bool) string {
+// flipASCIICase flips the case of the ASCII letters of s, except those for which keep
+// (may be nil) returns true.
+func flipASCIICase(s string, keep func(rune) bool) string {
 	var sb strings.Builder
 	for _, r := range s {
 		switch {
-		case turkish && (r == 'i' || r == 'I'):
+		case keep != nil && keep(r):
 		case r >= 'a' && r <= 'z':
 			r -= 32
 		case r >= 'A' && r <= 'Z':
@@ -379,7 +389,7 @@ func TestC29(t *testing.T) {
 		var b string
 		switch rapid.IntRange(0, 3).Draw(rt, "bkind") {
 		case 0:
-			b = flipASCIICase(a, false)
+			b = flipASCIICase(a, nil)
 		case 1: // replace runes of a by weight-equal or other runes
 			rs := []rune(a)
 			for i := range rs {
@@ -433,12 +443,7 @@ func TestC29(t *testing.T) {
 		}
 		// case clause
 		if k.ci {
-			f := flipASCIICase(a, k.turkish)
-			if k.c.Name == "latin7_general_ci" && strings.ContainsAny(a, "tT") {
-				// region of finding C29-latin7-ci-tT, re-confirmed by the exhaustive part
-				st.Excluded(kfLatin7tT)
-				f = a
-			}
+			f := flipASCIICase(a, func(r rune) bool { return caseExempt(k, r) })
 			if v := coherent(ctx, k, a, f, fail); v != 0 {
 				fail("%s: Compare(%q, %q) = %d; the strings differ only in the case of ASCII letters", k.c.Name, a, f, v)
 			}
